@@ -162,7 +162,9 @@ impl<S: Read + Write> Link<S> {
                 Some((message, written)) => {
                     if message != buffer {
                         self.unfinished = Some((message, written));
-                        return Err(Error::RdpError(RdpError::new(RdpErrorKind::InvalidAutomata, "LINK: the previous message is left unfinished by a write error")))
+                        // an I/O error : callers that drop the messages refused by the
+                        // state of the session have to see this one
+                        return Err(Error::Io(std::io::Error::new(std::io::ErrorKind::Other, "LINK: the previous message is left unfinished by a write error")))
                     }
                     written
                 },
